@@ -293,6 +293,13 @@ def _contains_after_head(n):
         want = z3.Or([I(v) == I(sid) for v in vals[1:]]) if n > 1 else z3.BoolVal(False)
         E.prove('contains_after_head:true_iff_some_item_behind_the_head_matches', B(E.truth(r)) == want)
         E.prove('contains_after_head:queue_unchanged', len(q.attrs['_queue']) == n)
+        if n >= 1:
+            # asked again after the queue changed without changing its length: the answer is about the current content
+            E.call(E.getattr(q, 'get_nowait'), [])
+            E.call(E.getattr(q, 'put_nowait'), [SOpaque('item', 'queued-later', attrs={'stream_id': sid})])
+            r2 = E.call(E.getattr(q, 'contains_after_head'), [pred])
+            E.prove('contains_after_head:answers_for_the_current_content[a matching frame queued meanwhile counts iff something is in front of it]',
+                    B(E.truth(r2)) == z3.BoolVal(n >= 2))
     return run
 
 
@@ -320,6 +327,18 @@ def contains_after_head_unbounded(E):
     E.prove('contains_after_head:false_if_no_item_behind_the_head_matches[the head itself does not count]',
             z3.Implies(z3.ForAll([j], z3.Implies(z3.And(j > s['h0'], j < s['t0']), STREAM(z3.Select(s['arr0'], j)) != I(sid))), z3.Not(res)))
     E.prove('contains_after_head:queue_unchanged', z3.And(s['h'] == s['h0'], s['t'] == s['t0'], s['arr'].eq(s['arr0'])))
+    # ... and it answers for the queue's CURRENT content: asked again after the queue changed (same length: the head was sent,
+    # a frame of the stream in question was queued), the new frame counts and the old snapshot does not
+    if E.decide(mk_bool(s['t'] > s['h']), 'non-empty'):
+        nid = aio.registry(E).id_of(SOpaque('frame', 'later'))
+        E.assume(STREAM(I(nid)) == I(sid))
+        newcomer = SOpaque('qitem', 'queued-later', attrs={'_id': nid, 'stream_id': sid})
+        E.call(E.getattr(q, 'get_nowait'), [])
+        E.call(E.getattr(q, 'put_nowait'), [newcomer])
+        r2 = E.call(E.getattr(q, 'contains_after_head'), [pred])
+        # the newcomer (stream sid) sits at the tail: it is behind the head exactly when something else is still in front of it
+        E.prove('contains_after_head:answers_for_the_current_content[a frame queued meanwhile counts, same queue length or not]',
+                z3.Implies(s['t'] - s['h'] >= 2, B(E.truth(r2))))
 
 
 for _n in range(0, 5):
